@@ -263,6 +263,21 @@ class Gen:
         n = r.randrange(*self.p.oplen)
         for _ in range(n):
             ops.append(self.op())
+        if f["auto"] is not None and r.random() < getattr(self.p, "bulk_p", 0.0):
+            # boundary of the strong / weak counters
+            k = r.randrange(nb)
+            mx, wmx = 16382, 32767
+            for _ in range(r.randrange(1, 4)):
+                pos = r.randrange(0, len(ops) + 1)
+                c = r.random()
+                if c < 0.4:
+                    ops.insert(pos, "clonen h%d %d" % (k, mx - r.randrange(0, 6)))
+                elif c < 0.6:
+                    ops.insert(pos, "dropn h%d %d" % (k, r.choice([1, 2, 100, 16380, 20000])))
+                elif c < 0.85 and f["weak"]:
+                    ops.insert(pos, "downn h%d %d" % (k, wmx - r.randrange(0, 6)))
+                elif f["weak"]:
+                    ops.insert(pos, "wdropn h%d %d" % (k, r.choice([1, 5, 32760, 40000])))
         # faults
         if r.random() < self.p.fault_p:
             nf = 2 if r.random() < self.p.two_faults_p else 1
